@@ -865,3 +865,48 @@ def kb5(P, C):
             C.ob("KB-5", where, "%s[%s]@%d" % (arr, g.render(g.nodes[i]["ch"][1]).replace(" ", ""), g.nodes[i]["loc"][0]), ok, g.loc(i),
                  "index %r ranges over [%r, %r]; allowed [%r, %r]" % (idx, lo, hi, lo_lim, hi_lim))
     return n_ob
+
+
+def kb6f(P, C, floor=4):
+    """KB-6f: variable-length arrays of the C fitter have an extent >= 1 for every admitted argument."""
+    C.rule("KB-6f", "every variable-length array of the fitter (glam.c, splineutil.c, nnls.c, cholesky_solve.c) has an extent >= 1 for the "
+           "admitted ranges: spline order >= 0, penalty order >= 0, dimension count >= 1 (asserted where used): a zero-length array is "
+           "undefined behaviour, and the order-0 spline with a penalty is an admitted fit", floor=floor)
+    # nvar / A->ncol: number of unknowns of a system handed to a solver (a fit has at least one coefficient per dimension)
+    LB = {"order": 0, "porder": 0, "ndim": 1, "array->ndim": 1, "a->ndim": 1, "n": 0, "nvar": 1, "A->ncol": 1}
+    n = 0
+    for f in sorted(P.functions.values(), key=lambda g: (g.file, g.line)):
+        if not f.unit.startswith("fitter/"):
+            continue
+        for i in f.walk():
+            if f.k(i) != "DeclStmt":
+                continue
+            for d in f.nodes[i]["decls"]:
+                if not d.get("vla"):
+                    continue
+                for e in d.get("extents", []):
+                    if e < 0:
+                        continue
+                    n += 1
+                    p = core.poly(f, e)
+                    lb, ok, why = 0, True, []
+                    for mono, c in p.t.items():
+                        term = c
+                        for a in mono:
+                            # parameters / fields by their role: anything called *order* is an order (>= 0), *ndim* a dimension count (>= 1)
+                            if a in LB:
+                                term *= LB[a]
+                            elif a.endswith("ndim"):
+                                term *= 1
+                            elif "order" in a:
+                                term *= 0
+                            else:
+                                ok = False
+                                why.append("no lower bound for %s" % a)
+                        if c < 0:
+                            ok = False
+                        lb += term
+                    ok = ok and lb >= 1
+                    C.ob("KB-6f", f.name, "vla:%s[%s]" % (d["name"], f.render(e)), ok, f.loc(i),
+                         "extent %s >= %d for the admitted arguments%s" % (f.render(e), lb, "" if ok else " — zero-length array when the order is 0" if lb == 0 and not why else "; " + "; ".join(why)))
+    return n
